@@ -142,6 +142,8 @@ def recv_case(rng, name=None, output=None, accept=None, pre=None, mode=None, lev
         c["link"] = rand_link(rng)
     if name is None and rng.random() < 0.05:
         c["pretmp"] = "socket"
+    elif name is None and rng.random() < 0.08:
+        c["pretmp"] = "file"
     c["fs"] = "cross" if rng.random() < 0.25 else "same"
     return c
 
@@ -173,6 +175,28 @@ def link_corpus(rng):
             c["fault"] = "none"
         if md == "dir":
             c["members"] = [["inner.txt", 0o600], ["inner.lnk", 0o644], ["sub.lnk/inner.txt", 0o600], ["sub/x", 0o644]]
+        out.append(c)
+    return out
+
+
+def refusal_corpus(rng):
+    """offers that are REFUSED (at the prompt, by _decide_destname, by the directory check behind the prompt) while the
+    user has files at every name a staging file could get"""
+    out = []
+    worlds = itertools.cycle(["recv", "go", "go", "recv", "recv"])
+    for nm, o, ans, pretmp, md in itertools.product(["a", "a/", "x/..", "keepdir", "sub/a"], ["unset", "dir", "file"],
+                                                    ["n", "y", ""], ["file", "none"], ["file", "dir"]):
+        world = next(worlds)
+        if md == "dir" and pretmp == "none":
+            continue
+        pre = "dir" if nm in ("a", "sub/a") and ans != "n" else "none"
+        c = recv_case(rng, name=nm, output=o, accept=False, pre=pre, mode=md, level="full") if world == "recv" else \
+            go_case(rng, name=nm, output=o, accept=False, pre=pre, mode=md)
+        c.update(answer=ans, pretmp=pretmp, zipmode="zipfile/deflated", fs="same")
+        if "fault" in c:
+            c["fault"] = "none"
+        if md == "dir":
+            c["members"] = [["inner.txt", 0o600], ["sub/x", 0o644]]
         out.append(c)
     return out
 
@@ -312,6 +336,7 @@ def cases(rng, tier):
     out.extend(entry_corpus(rng))
     out.extend(link_corpus(rng))
     out.extend(special_corpus(rng))
+    out.extend(refusal_corpus(rng))
     # --- generated ----------------------------------------------------------------------------
     n = 1 if tier == "quick" else 25
     for _ in range(450 * n):
@@ -361,6 +386,10 @@ class Sandbox:
         self.put_file(os.path.join(self.cwd, "keep.txt"), b"keep me")
         os.mkdir(os.path.join(self.cwd, "keepdir"))
         self.put_file(os.path.join(self.cwd, "keepdir", "inner.txt"), b"keep me too")
+        # unrelated files of the user named like a directory plus ".tmp" (a staging name computed from a destination
+        # that resolved to a directory — the cwd, its parent, an existing sub-directory — lands on these)
+        for d in (self.cwd, self.par, os.path.join(self.cwd, "keepdir")):
+            self.put_file(d + ".tmp", b"unrelated: " + os.path.basename(d).encode() + b".tmp")
         # what the user's symbolic links point to: a directory OUTSIDE the working directory (inside the snapshot)
         self.vault = os.path.join(self.outer, "vault")
         os.mkdir(self.vault)
@@ -552,12 +581,44 @@ class Spy:
     def __init__(self):
         self.extracts = []   # [name, returned target | None, exception | None]
         self.chmods = []     # [path, exception | None]
+        self.mutations = []  # (op, absolute path): open-for-writing in cmd_receive itself, os.remove/unlink, os.rename
 
     @contextlib.contextmanager
     def installed(self):
         spy = self
         real_extract = zipfile.ZipFile.extract
         real_chmod = os.chmod
+        real_remove, real_unlink, real_rename, real_rmtree = os.remove, os.unlink, os.rename, shutil.rmtree
+        import builtins
+        real_open = builtins.open
+
+        def ap(x):
+            try:
+                return os.path.abspath(os.fspath(x))
+            except (TypeError, ValueError):
+                return repr(x)
+
+        def traced_open(file, mode="r", *a, **kw):
+            if isinstance(file, (str, bytes, os.PathLike)) and any(c in mode for c in "wax+"):
+                spy.mutations.append(("open:" + mode, ap(file)))
+            return real_open(file, mode, *a, **kw)
+
+        def remove(path, *a, **kw):
+            spy.mutations.append(("remove", ap(path)))
+            return real_remove(path, *a, **kw)
+
+        def unlink(path, *a, **kw):
+            spy.mutations.append(("remove", ap(path)))
+            return real_unlink(path, *a, **kw)
+
+        def rename(src, dst, *a, **kw):
+            spy.mutations.append(("rename-from", ap(src)))
+            spy.mutations.append(("rename-to", ap(dst)))
+            return real_rename(src, dst, *a, **kw)
+
+        def rmtree(path, *a, **kw):
+            spy.mutations.append(("rmtree", ap(path)))
+            return real_rmtree(path, *a, **kw)
 
         def extract(zf, member, path=None, pwd=None):
             rec = [member, None, None]
@@ -578,14 +639,18 @@ class Spy:
                 rec[1] = e
                 raise
 
-        with mock.patch.object(zipfile.ZipFile, "extract", extract), mock.patch.object(os, "chmod", chmod):
+        with mock.patch.object(zipfile.ZipFile, "extract", extract), mock.patch.object(os, "chmod", chmod), \
+                mock.patch.object(cmd_receive, "open", traced_open, create=True), \
+                mock.patch.object(os, "remove", remove), mock.patch.object(os, "unlink", unlink), \
+                mock.patch.object(os, "rename", rename), mock.patch.object(shutil, "rmtree", rmtree):
             yield
 
 
 # ---------------------------------------------------------------------------
 # the oracle: a direct statement of the property over the observed file-system change
 
-def oracle(before, after, cwd, out_abs, out_was_dir, out_set, name, announced, succeeded, rejected, check_announced=True):
+def oracle(before, after, cwd, out_abs, out_was_dir, out_set, name, announced, succeeded, rejected, check_announced=True,
+           trace=()):
     """`before`/`after`: snapshots; `out_abs`: where the harness put --output-file (normalised) or None;
     `announced`: Receiver.abs_destname if the code got as far as deciding it, else None."""
     viol = []
@@ -652,6 +717,18 @@ def oracle(before, after, cwd, out_abs, out_was_dir, out_set, name, announced, s
             viol.append(("announced-destination-not-child", f"offer {name!r}: receiver decided {announced!r}, allowed is {dest!r}"))
     if not out_set and dest is not None and dest in before and succeeded and not dangling_dest:
         viol.append(("existing-destination-not-rejected", f"{dest!r} existed and --output-file was not given, but the offer was accepted"))
+    # the calls the receiver itself made (a file that is created and removed again within the run leaves no trace in the
+    # snapshots): it writes, removes and renames only at the one destination it announces (and its staging name) …
+    for op, p in trace:
+        if not (dest is not None and (p == dest or p == dest + ".tmp" or below(p, dest))):
+            viol.append(("writes-outside-destination", f"{op} {p!r}; the only destination allowed for offer {name!r} is {dest!r}"))
+    # … and when it REFUSES the offer (TransferRejectedError / RespondError) it has not touched anything at all
+    if rejected:
+        changed = [p for p in sorted(set(before) | set(after)) if before.get(p) != after.get(p)]
+        if changed or trace:
+            what = (f"{changed[0]!r}: {before.get(changed[0])} -> {after.get(changed[0])}" if changed
+                    else f"{trace[0][0]} {trace[0][1]!r}")
+            viol.insert(0, ("refused-offer-touched-filesystem", f"offer {name!r} was refused, yet {what}"))
     return viol
 
 
@@ -761,6 +838,10 @@ def prepare(case, sb):
             else:
                 os.symlink(tgt if link.get("abs") else os.path.relpath(tgt, os.path.dirname(at)), at)
 
+    for d in ([out_abs] if out_was_dir else []) + ([would_be] if placeable else []):
+        if os.path.isdir(d) and not os.path.islink(d) and not os.path.lexists(d + ".tmp") and os_clean(d + ".tmp"):
+            sb.put_file(d + ".tmp", b"unrelated: named like the directory next to it")
+
     return dict(name=name, out_set=out_set, out_file=out_file, out_abs=out_abs, out_was_dir=out_was_dir,
                 would_be=would_be, placeable=placeable)
 
@@ -814,7 +895,7 @@ def _run_recv(case, sb):
                     lines.append(f"decide {hx(name)}")
                     exp.append(f"ok {hx(d)} | {kinds(reg)}")
                 except Exception as e:
-                    rejected = isinstance(e, cmd_receive.TransferRejectedError)
+                    rejected = isinstance(e, cmd_receive.RespondError)
                     tags.append("decide:" + canon_exc(e))
                     lines.append(f"decide {hx(name)}")
                     exp.append(f"{canon_exc(e)} | {kinds(reg)}")
@@ -831,7 +912,7 @@ def _run_recv(case, sb):
                             lines.append(f"watch {hx(p)}")
                             exp.append("ok")
                 except Exception as e:
-                    rejected = isinstance(e, cmd_receive.TransferRejectedError)
+                    rejected = isinstance(e, cmd_receive.RespondError)
                     announced = getattr(r, "abs_destname", None)
                     tags.append("handle_file:" + canon_exc(e))
                     if clean:
@@ -860,7 +941,7 @@ def _run_recv(case, sb):
                         lines.append(f"handle_dir {hx(case['zipmode'])} {hx(name)}")
                         exp.append(f"ok {hx(r.abs_destname)} | {kinds(reg)}")
                 except Exception as e:
-                    rejected = isinstance(e, cmd_receive.TransferRejectedError)
+                    rejected = isinstance(e, cmd_receive.RespondError)
                     announced = getattr(r, "abs_destname", None)
                     tags.append("handle_dir:" + canon_exc(e))
                     if clean:
@@ -885,7 +966,8 @@ def _run_recv(case, sb):
     after = sb.snapshot()
     # `_decide_destname` alone is final only with --accept-file (otherwise `_ask_permission` still has to agree)
     viol = oracle(before, after, sb.cwd, out_abs, out_was_dir, out_set, name, announced, succeeded, rejected,
-                  check_announced=(case['level'] != 'decide' or case['accept']))
+                  check_announced=(case['level'] != 'decide' or case['accept']),
+                  trace=spy.mutations)
     if viol:
         tags.append("oracle:" + viol[0][0])
     return Result(lines, exp, viol, tags, nontrivial=True)
@@ -929,15 +1011,16 @@ def run_zip(case):
         args = make_args(sb, None, True)
         r = cmd_receive.Receiver(args)
         lines, exp, tags = [f"args {hx(sb.cwd)} - 1 - {hx(os.getcwd())}"], ["ok"], ["zip"]
-        with zipfile.ZipFile(io.BytesIO(zbytes)) as zf:
+        outer_spy = Spy()
+        with zipfile.ZipFile(io.BytesIO(zbytes)) as zf, outer_spy.installed():
             for info in zf.infolist():
-                spy = Spy()
+                spy = outer_spy
+                del spy.extracts[:], spy.chmods[:]
                 final = None
-                with spy.installed():
-                    try:
-                        r._extract_file(zf, info, dest)
-                    except Exception as e:
-                        final = e
+                try:
+                    r._extract_file(zf, info, dest)
+                except Exception as e:
+                    final = e
                 if spy.extracts and spy.extracts[0][2] is None and spy.chmods:
                     lines.append(f"extract {hx(dest)} {hx(info.filename)}")
                     exp.append(f"ok {hx(spy.extracts[0][1])} {hx(spy.chmods[0][0])}")
@@ -960,6 +1043,9 @@ def run_zip(case):
                 viol.append(("writes-outside-destination", f"archive member created {p!r} outside {dest!r}"))
             else:
                 viol.append(("modifies-outside-destination", f"archive extraction changed {p!r}: {b} -> {a}; destination is {dest!r}"))
+        for op, p in outer_spy.mutations:
+            if not p.startswith(dest + "/"):
+                viol.append(("writes-outside-destination", f"archive extraction: {op} {p!r} outside {dest!r}"))
         if viol:
             tags.append("oracle:" + viol[0][0])
         return Result(lines, exp, viol, tags, nontrivial=True)
@@ -1222,7 +1308,10 @@ def _run_go(case, sb, entry=None):
                 res = f"ok {hx(announced)}"      # what happened below the destination is the archive cases' business
             exp.append(res + f" | {kinds(reg)}")
     after = sb.snapshot()
-    viol = oracle(before, after, sb.cwd, out_abs, out_was_dir, out_set, name, announced, succeeded, not succeeded)
+    from wormhole.errors import TransferError
+    refused = final is not None and not permission and isinstance(final, TransferError)
+    viol = oracle(before, after, sb.cwd, out_abs, out_was_dir, out_set, name, announced, succeeded, refused,
+                  trace=spy.mutations)
     if viol:
         tags.append("oracle:" + viol[0][0])
     return Result(lines, exp, viol, tags, nontrivial=True)
